@@ -36,7 +36,7 @@ PY
   ( cd "$ROOT/engine" && go build -overlay "$dir/overlay.json" -tags "verif $tags" -ldflags=-checklinkname=0 -o "$dir/runner" ./cmd/c14/runner ) || { echo "demo: mutant $name does not build" >&2; return 2; }
   echo "=== mutant $name (replaces configuration $cfg)"
   for fam in T-pool-templates T-stale-registers; do
-    VERIF_ROOT="$MUT/root" C14_OVERRIDE="$cfg=$dir/runner" VERIF_DUMPKEYS="$dir/keys-$fam.txt" \
+    VERIF_ROOT="$MUT/root" C14_BUDGET_SCALE=20 C14_OVERRIDE="$cfg=$dir/runner" VERIF_DUMPKEYS="$dir/keys-$fam.txt" \
       "$ROOT/.bin/c14" -tier quick -family "$fam" > "$dir/out-$fam.txt" 2>&1
     n=$(wc -l < "$dir/keys-$fam.txt" 2>/dev/null || echo 0)
     other=$(grep -v "cfg=$cfg	" "$dir/keys-$fam.txt" 2>/dev/null | wc -l)
@@ -56,6 +56,20 @@ mutant regpool-noclear /repo/runtime/regpool.go "nocontpool" nocontpool 'func (p
 func (p *valuePool) release(v []Value) {
 	for i := 0; i < regPoolSize; i++ {
 		if p.exps[i] < p.gen {'
+
+# M5: a register set taken from the LAST slot of the register pool stays in
+# the pool (two live frames share registers).  Needs 10 sets of one size
+# pooled at once (>= 10 nested returns) and then >= 10 nested calls.
+mutant regpool-lastslot-alias /repo/runtime/regpool.go "nocontpool" nocontpool '		v := p.values[i]
+		if len(v) == sz {
+			p.values[i] = nil
+=====
+		v := p.values[i]
+		if len(v) == sz {
+			if i == regPoolSize-1 {
+				return v
+			}
+			p.values[i] = nil'
 
 # M2: when the Lua continuation pool is FULL (100 released continuations),
 # get() hands out the top continuation without removing it from the pool, so
